@@ -208,6 +208,8 @@ def fam_matrix(tier):
             for kind in ('acorn', 'watford') + (('opus',) if ext == 'sdd' else ()):
                 for gzf in (False, True):
                     totals = [min(tr * spt, 1023)] + ([100, 300] if kind != 'opus' else [])
+                    if tier == 'thorough' and kind != 'opus':
+                        totals = sorted(set(totals + list(range(50, min(tr * spt, 1023), 37)) + [tr * spt - 1 if tr * spt <= 1023 else 1022]))
                     for total in totals:
                         c = {'kind': kind, 'tracks': tr, 'spt': spt, 'ext': ext, 'gz': gzf, 'sig': 'C13:matrix:%s' % kind,
                              'note': '%s %s %dx%d total=%d%s' % (kind, ext, tr, spt, total, ' .gz' if gzf else ''), 'differential': True}
@@ -217,6 +219,8 @@ def fam_matrix(tier):
     # Opus volume sizes: every combination of 1-, 2- and 3-track volumes for 1..3 volumes, and eight one-track volumes
     import itertools as _it
     combos = [c for n in (1, 2, 3) for c in _it.product((1, 2, 3), repeat=n)] + [(1,) * 8, (1, 1, 1, 1, 2)]
+    if tier == 'thorough':
+        combos = [c for n in (1, 2, 3, 4) for c in _it.product((1, 2, 3, 5), repeat=n)] + [(1,) * k for k in range(5, 9)] + [(2,) * 8, (4,) * 8]
     for vt in combos:
         for tr in (40, 80):
             yield {'kind': 'opus', 'tracks': tr, 'spt': 18, 'ext': 'sdd', 'voltracks': list(vt), 'want': 'opus', 'sig': 'C13:matrix:opus:volume-sizes',
@@ -232,6 +236,16 @@ def fam_watford_starts(tier):
     for st in starts:
         yield {'kind': 'watford', 'tracks': 80, 'spt': 18, 'ext': 'sdd', 'total': 1023, 'files': [[st, 200]],
                'files2': [[1022, 100]] if st < 1021 else [], 'sig': 'C13:watford:file-start', 'note': 'file at sector 0x%03X' % st}
+    if tier == 'thorough':
+        # the same with the file in the SECOND catalogue, and on the other containers/geometries
+        for st in starts:
+            yield {'kind': 'watford', 'tracks': 80, 'spt': 18, 'ext': 'sdd', 'total': 1023, 'files': [[4, 200]] if st > 4 else [],
+                   'files2': [[st, 200]], 'sig': 'C13:watford:file-start:second-catalogue', 'note': 'second-catalogue file at sector 0x%03X' % st}
+        for ext, tr, spt in (('ssd', 80, 10), ('dsd', 80, 10), ('ddd', 80, 18), ('ssd', 40, 10)):
+            tot = min(tr * spt, 1023)
+            for st in range(4, tot - 1):
+                yield {'kind': 'watford', 'tracks': tr, 'spt': spt, 'ext': ext, 'total': tot, 'files': [[st, 200]], 'files2': [[tot - 1, 100]] if st < tot - 2 else [],
+                       'sig': 'C13:watford:file-start', 'note': '%s %dx%d: file at sector 0x%03X' % (ext, tr, spt, st)}
 
 
 def fam_marker_imitation(tier):
@@ -240,8 +254,14 @@ def fam_marker_imitation(tier):
         body = bytes(0xAA if mask & (1 << i) else 0x55 for i in range(8))
         yield {'kind': 'acorn', 'tracks': 40, 'spt': 10, 'ext': 'ssd', 'files': [[2, 600]], 'poke': [[512, body.hex()]],
                'sig': 'C13:acorn:sector2-file-imitates-watford', 'note': 'file at sector 2 begins %s' % body.hex(), 'differential': True}
+        if tier == 'thorough':
+            for ext, tr, spt in (('ssd', 80, 10), ('sdd', 80, 18), ('dsd', 40, 10), ('ddd', 40, 18), ('sdd', 40, 16)):
+                for ln in (1, 256, 2048):
+                    yield {'kind': 'acorn', 'tracks': tr, 'spt': spt, 'ext': ext, 'files': [[2, ln]], 'poke': [[512, body.hex()]],
+                           'sig': 'C13:acorn:sector2-file-imitates-watford', 'note': '%s %dx%d: file of %d bytes at sector 2 begins %s' % (ext, tr, spt, ln, body.hex()),
+                           'differential': True}
     # the marker in a sector-2 file of a larger catalogue, file listed at every catalogue position
-    for pos in range(0, 31, 5):
+    for pos in range(0, 31, 5 if tier == 'quick' else 1):
         files = [[100 - 3 * i, 300] for i in range(31)]
         files[pos] = [2, 256]
         files.sort(key=lambda f: -f[0])
